@@ -302,10 +302,10 @@ def _judge(rec: hist.Rec, sim: core.Sim, before: dict, want: dict, verdict: str,
     rec.stats["evaluations"] += 1
     rec.probe("verdict:" + verdict.split(":")[0].split("+")[0])
     if verdict.startswith("raises") and exact:
-        if o.status == "ok":
-            return hist.viol("init-succeeded-where-rendering-fails", verdict, step=step, op=real)
+        # the rendering cannot be produced: whether zorg reports that as an error is
+        # not part of the statement, but nothing may be written or changed
         if after != before:
-            return hist.viol("failed-init-changed-files", verdict, step=step, op=real)
+            return hist.viol("failed-init-changed-files", verdict, step=step, op=real, status=o.status)
         return None
     if o.status != "ok" and exact:
         return hist.viol("init-raised", _idx.exc_cause(o), step=step, op=real, msg=(o.exc or {}).get("msg"), verdict=verdict)
